@@ -32,6 +32,8 @@ pub const JOBS: &[&str] = &[
     "keyed_chain",
     "count_sink",
     "set_sink",
+    "side_left_merge",
+    "side_left_join",
 ];
 
 fn get1<T: Send + 'static>(o: StreamOutput<Vec<T>>, f: impl Fn(T) -> Vec<i64> + Send + 'static) -> Getter {
@@ -290,6 +292,43 @@ pub fn build(ctx: &StreamContext, job: &str, n: i64, bm: BatchMode, fault: Optio
                 move |s, state| {
                     s.join(side, |(x, _)| *x, |x| *x)
                         .map(move |(_key, ((x, y), _x))| (x, (y + *state.get()) % 1_000_003))
+                        .drop_key()
+                },
+                |delta: &mut i64, (_x, y)| *delta = (*delta + y) % 1_000_003,
+                |old, delta| *old = (*old + delta) % 1_000_003,
+                |_state| true,
+            );
+            let o1 = state.collect_vec();
+            let o2 = res.collect_vec();
+            vec![get1(o1, |x| vec![x]), get1(o2, |(x, y)| vec![x, y])]
+        }
+        "side_left_merge" => {
+            // a side input from outside the loop as the LEFT operand of a merge inside a replay body
+            // (merge wants equal replication on both sides, hence the shuffle; the join variant below has
+            // a one-replica side against a fully replicated loop stream)
+            let n = n.min(200);
+            let side = ctx.stream_iter(0..n).batch_mode(bm).map(|x| x * 2).shuffle();
+            let state = ctx.stream_par_iter(0..n).batch_mode(bm).shuffle().replay(
+                3,
+                0i64,
+                move |s, state| side.merge(s).map(move |x| (x + *state.get()) % 1_000_003),
+                |delta: &mut i64, x| *delta = (*delta + x) % 1_000_003,
+                |old, delta| *old = (*old + delta) % 1_000_003,
+                |_state| true,
+            );
+            let o = state.collect_vec();
+            vec![get1(o, |x| vec![x])]
+        }
+        "side_left_join" => {
+            // same with a join inside an iterate body (side on the left, one replica)
+            let n = n.min(200);
+            let side = ctx.stream_iter(0..n).batch_mode(bm);
+            let (state, res) = ctx.stream_par_iter(0..n).batch_mode(bm).map(|x| (x, x)).shuffle().iterate(
+                3,
+                0i64,
+                move |s, state| {
+                    side.join(s, |x| *x, |(x, _)| *x)
+                        .map(move |(_key, (_x, (x, y)))| (x, (y + *state.get()) % 1_000_003))
                         .drop_key()
                 },
                 |delta: &mut i64, (_x, y)| *delta = (*delta + y) % 1_000_003,
